@@ -21,3 +21,27 @@ func zzC08_parse() {
 	zzAssert(a.Orientation == b.Orientation && a.ImageWidth == b.ImageWidth && a.Software == b.Software, "exif2.Parse: same fields whatever the read sizes")
 	zzReached("end")
 }
+
+// the same with gaps that the reader has to skip (first directory at offset 14, value 7 bytes after the directory):
+// skipping must not depend on the read sizes either
+func zzC08_parsegap_N() int { return 2 }
+func zzC08_parsegap() {
+	be := zzPart() == 1
+	o, w := zzU16("o"), zzU16("w")
+	s := zzBytes("s", 6)
+	for i := range s {
+		zzAssume(s[i] > ' ' && s[i] < 0x7f)
+	}
+	t := zzNewTiff(14+2+3*12+4+7+8, be, 14)
+	t.dir(14, 3, 0)
+	t.entShort(14, 0, 0x0100, w)
+	t.entShort(14, 1, 0x0112, o)
+	t.ent(14, 2, 0x0131, 2, 7, 63)
+	t.bytes(63, append(append([]byte{}, s...), 0))
+	a, ea := Parse(zzReaderOf(t.b))
+	b, eb := Parse(zzChunkedReaderOf2(t.b, "c"))
+	zzAssert((ea == nil) == (eb == nil), "exif2.Parse: same success whatever the read sizes (with gaps)")
+	zzAssert(a.Orientation == b.Orientation && a.ImageWidth == b.ImageWidth && a.Software == b.Software, "exif2.Parse: same fields whatever the read sizes (with gaps)")
+	zzAssert(len(a.Software) == 6 && a.ImageWidth == w, "the reference decode reports the written values")
+	zzReached("end")
+}
